@@ -198,6 +198,9 @@ class Crate:
         self.mir = {b["path"]: b for b in j["mir"]}
         if os.environ.get("ZSA_ALPHA"):
             _alpha_rename(j["hir"], os.environ["ZSA_ALPHA"])
+        if not os.environ.get("ZSA_NO_NF"):
+            from . import normal
+            normal.normalize(j["hir"], self.consts)
         if not os.environ.get("ZSA_RAW_NAMES"):
             _label_locals(j["hir"])
 
